@@ -157,8 +157,14 @@ func (sc *Scheduler) Schedule(ctx context.Context, g *ExecutionGraph, done chan 
 					sc.lastError = err
 					node.setErr(err)
 				}
+				// handedOver is set once a failed attempt has given the node back
+				// to the scheduling loop for a retry: from then on the node's files
+				// belong to the next attempt and must not be closed from here.
+				handedOver := false
 				defer func() {
-					_ = sc.teardownNode(node)
+					if !handedOver {
+						_ = sc.teardownNode(node)
+					}
 				}()
 				defer verifPoint("worker.tail", node)
 				verifPoint("worker.loopchk", node)
@@ -198,6 +204,9 @@ func (sc *Scheduler) Schedule(ctx context.Context, g *ExecutionGraph, done chan 
 							time.Sleep(node.data.Step.RetryPolicy.Interval)
 							verifPoint("worker.retrywake", node)
 							node.setRetriedAt(time.Now())
+							// close this attempt's files before the node can be launched again
+							_ = sc.teardownNode(node)
+							handedOver = true
 							node.setStatus(NodeStatusNone)
 						default:
 							// finish the node
@@ -232,9 +241,11 @@ func (sc *Scheduler) Schedule(ctx context.Context, g *ExecutionGraph, done chan 
 						node.setStatus(NodeStatusCancel)
 					}
 				}
-				if err := sc.teardownNode(node); err != nil {
-					sc.setLastError(err)
-					node.setStatus(NodeStatusError)
+				if !handedOver {
+					if err := sc.teardownNode(node); err != nil {
+						sc.setLastError(err)
+						node.setStatus(NodeStatusError)
+					}
 				}
 				if done != nil {
 					done <- node
